@@ -109,19 +109,19 @@ type Worker struct {
 	mergeLvl  int
 
 	// intrinsic state
-	poolFree  map[*Value][]Value // sync.Pool slot -> released items (LIFO)
-	errTypes  *errTypes
-	pathStats pathStats
-	stackDesc []string
-	jobModel  map[string]uint64
-	pathReach []string
-	armBudget int64
+	poolFree   map[*Value][]Value // sync.Pool slot -> released items (LIFO)
+	errTypes   *errTypes
+	pathStats  pathStats
+	stackDesc  []string
+	jobModel   map[string]uint64
+	pathReach  []string
+	armBudget  int64
 	mergeCheck bool
-	pathViol   int // violations recorded on the current path (such a path is not used as a witness)
-	softGoal  bool // the next feasibility queries are branch/merge pre-checks (not obligations)
-	nq        int
-	varsMemo  map[int32]map[int32]bool
-	mstats    struct{ ok, fail int64 }
+	pathViol   int  // violations recorded on the current path (such a path is not used as a witness)
+	softGoal   bool // the next feasibility queries are branch/merge pre-checks (not obligations)
+	nq         int
+	varsMemo   map[int32]map[int32]bool
+	mstats     struct{ ok, fail int64 }
 }
 
 type pathStats struct {
